@@ -20,7 +20,9 @@ CONSTANTS MaxT0, MaxDt, MaxSpan,    \* bounds in ticks
                                     \* (a tolerance on (t1 - t0) / dt that grows with the number of steps would drop or add a step there)
 
 \* the long runs the checks use (ticks of 1e-6): 1000 .. 20000 steps
-LongRunsDefault == {<<0, 1000004, 1000>>, <<0, 1000000, 1000>>, <<0, 999996, 1000>>, <<250000, 1250004, 1000>>, <<0, 2000010, 100>>, <<0, 2000000, 100>>, <<3, 1200011, 400>>}
+LongRunsDefault == {<<0, 1000004, 1000>>, <<0, 1000000, 1000>>, <<0, 999996, 1000>>, <<250000, 1250004, 1000>>, <<0, 2000010, 100>>, <<0, 2000000, 100>>, <<3, 1200011, 400>>,
+                    \* late initial times in ticks of 1e-3 (a day, an hour): (t1 - t0) / dt is off by many ulps there, an ABSOLUTE tolerance on it adds a step
+                    <<86400000, 86400100, 1>>, <<86400000, 86400050, 1>>, <<86400000, 86400020, 1>>, <<3600000, 3600100, 1>>}
 
 VARIABLES t0, t1, dt, m     \* m: number of accepted steps (m = N for a complete run)
 
